@@ -12,7 +12,7 @@ PART = {
 
 PART["C18"] = {
     "runs": [{"name": "pure", "pkg": P, "run": "^TestVF_C18", "timeout": "30m", "timeout_thorough": "90m", "race_thorough": False}],
-    "rule": "operation histories (put/get/last/del/len/cursor first-next scan/seek+next/cursor last) run on the real bolt-trimmed (chained and unchained context), "
+    "rule": "operation histories (put/get/last/del/len/cursor first-next scan/seek+next/cursor last/several moves of ONE cursor; beacons stored with and without a previous signature) run on the real bolt-trimmed (chained and unchained context), "
             "bolt-untrimmed and memdb ring stores, every answer compared with a reference sorted map: exhaustive over all sequences up to length 3 (quick) / 4 (thorough) on rounds 0..3, "
             "seeded random histories of 50-400 operations with gaps/deletions/re-puts/re-opens, memdb cursor steps interleaved with modifications, and concurrent get/put/del histories "
             "checked with porcupine per round; non-trivial = every history (each contains at least one mutating and one reading op by construction of the alphabet is NOT guaranteed, so distinct = distinct (back-end, operation sequence))",
@@ -23,7 +23,7 @@ PART["C18"] = {
 PART["C17"] = {
     "runs": [{"name": "pure", "pkg": P, "run": "^TestVF_C17$", "timeout": "30m", "timeout_thorough": "60m"}],
     "rule": "generated groups (1..10 nodes, admissible thresholds, all 5 schemes, optional seed/transition/non-default id); per group the chain hash is compared across "
-            "6 encoding paths (group->info, proto, v2 JSON, hexjson, group file via key.Save/Load, group proto), every single-field perturbation must change it, membership changes must not, "
+            "6 encoding paths (group->info, proto, v2 JSON, hexjson, group file via key.Save/Load, group proto) plus proto / hexjson with caller-supplied metadata naming no, the default, another or the same beacon id, every single-field perturbation must change it, membership changes must not, "
             "tampered v2 JSON must be rejected, 5 node permutations must keep the group hash and every single-field perturbation must change it; distinct = distinct generated group",
     "assumptions": ["SHA-256/blake2b collision resistance (a perturbation leaving the hash unchanged is reported as insensitivity)",
                     "periods below 2^32 s (the hash commits to uint32 seconds)"],
